@@ -8,6 +8,7 @@ from .. import cast, sym, lin
 from .common import distinct_enums
 from ..sym import C, fmt, linearize as L
 from ..lin import Lin
+from .common import loop_counter, base_name
 from .regs import Regs, T, strip_cast, size_facts, scan_rule, for_headers, wrap_free
 
 FLAGS = ('f', T, 'flags')
@@ -223,7 +224,7 @@ def rule_cd(ck, R, eng, ps):
                     pos = e_.args[0]
             if nloops >= 1:
                 lmap = p.loops[-1][1]
-                idx = [h for k, (h, pre) in lmap.items() if fmt(k) in ('i',) or fmt(k).startswith('i~')]
+                idx = [h for k, h, pre in loop_counter(ps, p)]
                 if pos is None or strip_cast(pos) not in idx:
                     bad = bad or '%s reports position %s, not the index of the offending item' % (nm, fmt(pos) if pos else None)
         ck.verdict(bad is None, 'C04.c', 'code:' + nm, where, '%s decided in check group %d, reporting the loop index' % (nm, nloops) if bad is None else bad)
@@ -245,8 +246,15 @@ def rule_cd(ck, R, eng, ps):
             ck.violation('C04.d', 'pred:%s' % arr, where, 'order/overlap/continue paths of the %s loop not found' % arr)
             continue
         lmap = lb[0].loops[-1][1]
-        hi = [(k, h, pre) for k, (h, pre) in lmap.items() if fmt(k) == 'i' or fmt(k).startswith('i~')]
-        hp = [(k, h, pre) for k, (h, pre) in lmap.items() if fmt(k) == 'previous']
+        hi = loop_counter(ps, lb[0])
+        # the comparison value: the loop variable (not the index) that carries item[i].field into the next iteration
+        hp = []
+        if hi:
+            cur0 = ('f', sym.add(('f', T, arr), hi[0][1]), fieldname)
+            hp = [(k, h, pre) for k, (h, pre) in lmap.items() if k != hi[0][0] and pre is not None and strip_cast(sym.mem_read(lb[0].mem, k, h)) == cur0]
+            if not hp:
+                hp = [(k, h, pre) for k, (h, pre) in lmap.items() if k != hi[0][0] and pre is not None
+                      and strip_cast(pre) in (('f', ('f', T, arr), fieldname), ('f', sym.add(('f', T, arr), C(0)), fieldname))]
         if hi and not hp:
             ck.violation('C04.d', 'pred:%s' % arr, where,
                          'the comparison value is not updated inside the %s loop: every item is compared with the first one instead of its predecessor' % arr)
@@ -389,7 +397,7 @@ def rule_ef(ck, R, eng, ps):
         if rs:
             seen_set = True
             lmap = p.loops[-1][1]
-            idx = [h for k, (h, pre) in lmap.items() if fmt(k) == 'i' or fmt(k).startswith('i~')]
+            idx = [h for k, h, pre in loop_counter(ps, p)]
             a = rs[0].args
             if a[0] != T or strip_cast(a[1]) not in idx:
                 bad = 'register_set called for %s' % fmt(a[1])
@@ -417,6 +425,12 @@ def rule_ef(ck, R, eng, ps):
     if len(link) < 2:
         bad = 'area/entry link loop not found'
     origin = eng.clobber_origin
+    ent_keys = set()
+    for p0 in link:
+        for nx in p0.calls('ra_first_entry_of_next'):
+            for k, (h, pre) in p0.loops[-1][1].items():
+                if strip_cast(sym.mem_read(p0.mem, k, h)) == nx.result:
+                    ent_keys.add(k)
     for p0 in link:
         class _P:      # view of the path with 'clobbered' table fields mapped back (nothing in the loop restructures the table)
             pass
@@ -435,8 +449,9 @@ def rule_ef(ck, R, eng, ps):
             return out
         p.calls = _calls
         lmap = p.loops[-1][1]
-        idx = [h for k, (h, pre) in lmap.items() if fmt(k) == 'i' or fmt(k).startswith('i~')]
-        ent = [(k, h, pre) for k, (h, pre) in lmap.items() if fmt(k) == 'entry']
+        idx = [h for k, h, pre in loop_counter(ps, p0)]
+        # the running entry index: the other loop variable, the one the link stores as entry.first / advances to the next area's first entry
+        ent = [(k, h, pre) for k, (h, pre) in lmap.items() if k in ent_keys and h not in idx]
         if not idx or not ent:
             bad = 'link loop variables not recognised'
             continue
